@@ -1082,7 +1082,11 @@ def c19(prop, tier, seed):
         vlib.sh([vlib.build_harness(), "schema-docs", "-cases", f2, "-out", f3, "-max-mutations", "300"], env=vlib.goenv(), timeout=900)
         docs = [json.loads(l) for l in open(f3)]
         rng.shuffle(docs)
-        write_rows(docs[:40 if tier == "quick" else 600], f3)
+        # always among the sample: documents whose only defect is an ill-formed annotation key (the schema files
+        # accept them, the library's content check does not)
+        badann = [d for d in docs if any(k in json.dumps(d["doc"]) for k in ('"-x"', '"a/b/c"', '"-bad.com/x"', '"": "v"'))][:8]
+        rest = [d for d in docs if d not in badann]
+        write_rows(badann + rest[:(40 if tier == "quick" else 600) - len(badann)], f3)
         res, err = run_harness("cli", ["-cases", f1, "-seed", seed, "-cdi", bins["cdi"], "-validate", bins["validate"], "-docs", f3, "-repo", vlib.REPO], timeout=3000)
     finally:
         for f in (f1, f2, f3):
